@@ -184,6 +184,16 @@ func runDagCheck(c *RunCtx) {
 			}
 		}
 	}
+	if os.Getenv("VERIF_ONLY_UNBOUNDED") != "" {
+		// development aid: only the visited-state units (to see what that mode detects on its own)
+		var keep []unit
+		for _, u := range units {
+			if u.por {
+				keep = append(keep, u)
+			}
+		}
+		units = keep
+	}
 	planned := map[string]int{}
 	for _, u := range units {
 		planned[u.pname]++
